@@ -87,6 +87,8 @@ def main():
           continue
         if not a.skip_tests:
           r["stable_tests_missing"] = stable_pass(wt)
+        else:
+          r["stable_tests_missing"] = results.get(key, {}).get("stable_tests_missing")
         if demo:
           rc, out = sh("/venv/bin/python %s" % demo, cwd=wt)
           r["demo_patched_rc"] = rc
